@@ -98,6 +98,9 @@ def run_property(pid, tier, seed):
         ctx = Ctx(pid, F.load("lib")[0], tier, "thorough-extra")
         extra = mod.thorough(ctx) or {}
         all_obs += ctx.obs; notes += ctx.notes
+    if os.environ.get("RM_DUMP_OBS"):
+        with open(os.environ["RM_DUMP_OBS"], "a") as fh:
+            for o in all_obs: fh.write(json.dumps({"p": pid, "rule": o["rule"], "key": o["key"], "site": o["site"], "ok": o["ok"]}) + "\n")
     known = load_known()
     kf = {(k["property"], k["key"]): k for k in known.get("findings", [])}
     viol = []; known_hit = {}
@@ -145,7 +148,8 @@ def run_property(pid, tier, seed):
         "evaluations": len(all_obs), "distinct_nontrivial": distinct_nontrivial,
         "checker_cmd": f"./check {pid} --tier {tier}",
         "trusted_base": ["nightly rustc 1.97 MIR construction and type checking (mir_built)", "engine/driver fact extraction",
-                         "role bindings in engine/rules/roles.py (shape self-checked on every run)"] + list(getattr(mod, "TRUSTED", [])),
+                         "role bindings in engine/rules/roles.py (shape self-checked on every run)",
+                         "anchor recovery / helper + closure inlining of engine/rules/{anchors,inline}.py (identity on the tree the rules were confirmed on; what they did on this run is listed in notes)"] + list(getattr(mod, "TRUSTED", [])),
         "samples": samples, "rule_instances": counts, "analysed": meta,
         "known_findings_matched": sorted(known_hit), "undecided": len(und), "notes": notes[:50],
         "exhaustive": False,
